@@ -28,6 +28,7 @@ fn main() {
         "codec" => drivers::codec::run(&args),
         "shapes" => drivers::shapes::run(&args),
         "sock" => drivers::sock::run(&args),
+        "putq" => drivers::putq::run(&args),
         "idmath-one" => drivers::idmath::run_one(&args),
         other => {
             eprintln!("unknown driver {other}");
